@@ -305,7 +305,7 @@ fn order_case(src: &str) -> Option<String> {
 }
 
 const WRAPPERS: [&str; 12] = ["T", "Vec<T>", "[T; 2]", "&'static [T]", "Option<T>", "HashMap<String, T>", "Wrap<T>", "Wrap<Vec<T>>", "Foreign<T>", "Vec<Option<T>>", "Wrap<Wrap<T>>", "Foreign<Foreign<T>>"];
-const NODES: [&str; 4] = ["Aa", "Bb", "Cc", "Dd"];
+const NODES: [&str; 5] = ["Aa", "Bb", "Cc", "Dd", "Ee"];
 /// program with items Aa..Dd (n of them) whose references are the edges in `code` (bit i*n+j: i refers to j),
 /// every reference wrapped in WRAPPERS[w]; holder: 0 struct field, 1 tuple variants, 2 struct-variant fields, 3 mixed by node
 fn order_program(n: usize, code: u64, w: usize, holder: usize) -> String { order_program_renamed(n, code, w, holder, 0) }
@@ -349,6 +349,38 @@ fn refs_case(src: &str) -> Option<String> {
         for m in mentions { if let Some((o, r)) = renamed.iter().find(|(o, _)| *o == m) { return Some(format!("{} still refers to `{}`, but that type is defined as `{}`", item, o, r)); } }
     }
     None
+}
+
+/// C09 across crates (folder mode): crate `app` imports a type that crate `model` defines under a serde-renamed name
+fn refs_multi_crate(rename_in_app: bool) -> Option<String> {
+    use std::collections::BTreeMap;
+    let ctx = ParseContext { multi_file: true, ..Default::default() };
+    let model = "#[typeshare]\n#[serde(rename = \"AccountStatus\")]\npub enum Status { Active, Closed }\n#[typeshare]\npub struct Plain { pub p: u32 }\n";
+    let app = if rename_in_app {
+        "use model::{Status, Plain};\n#[typeshare]\n#[serde(rename = \"AcctRenamed\")]\npub struct Account { pub status: Status, pub history: Vec<Status>, pub p: Plain }\n"
+    } else {
+        "use model::{Status, Plain};\n#[typeshare]\npub struct Account { pub status: Status, pub history: Vec<Status>, pub p: Plain }\n"
+    };
+    let mut crates: BTreeMap<CrateName, ParsedData> = BTreeMap::new();
+    for (cn, src) in [("model", model), ("app", app)] {
+        let d = parse(&ctx, ParseFileContext { source_code: src.to_string(), crate_name: CrateName::from(cn.to_string()), file_name: format!("{}.ts", cn), file_path: format!("{}/src/lib.rs", cn).into() }).ok().flatten()?;
+        let k = d.crate_name.clone();
+        *crates.entry(k).or_default() += d;
+    }
+    typeshare_core::reconcile::reconcile_aliases(&mut crates);
+    let appd = crates.get(&CrateName::from("app".to_string()))?;
+    for (item, mentions) in item_refs(appd) { if mentions.iter().any(|m| m == "Status") { return Some(format!("crate app: {} still refers to `Status`, but crate model defines that type as `AccountStatus`", item)); } }
+    None
+}
+/// C09 for an enum turned into an alias by serialized_as, under a container rename_all: definition name vs references
+fn refs_serialized_as() -> Option<String> {
+    refs_case("#[typeshare(serialized_as = \"String\")]\n#[serde(rename_all = \"camelCase\")]\npub enum PaymentMethod { CreditCard, WireTransfer }\n#[typeshare(serialized_as = \"String\")]\n#[serde(rename_all = \"snake_case\")]\npub struct OrderId { pub v: u32 }\n#[typeshare]\npub struct Order { pub method: PaymentMethod, pub id: OrderId, pub all: Vec<PaymentMethod> }\n")
+        .or_else(|| {
+            // the alias must be defined under the name its users mention
+            let d = parse_named("#[typeshare(serialized_as = \"String\")]\n#[serde(rename_all = \"camelCase\")]\npub enum PaymentMethod { CreditCard }\n", "f.rs")?;
+            let a = d.aliases.first()?;
+            if a.id.renamed != "PaymentMethod" { Some(format!("alias for enum PaymentMethod is defined as `{}` (rename_all applies to members, not to the type's own name)", a.id.renamed)) } else { None }
+        })
 }
 
 fn permutations(n: usize) -> Vec<Vec<usize>> {
@@ -448,7 +480,8 @@ fn main() {
                 }
             } } }
             for (i, cfgs) in all.iter().enumerate() { for (t, ts) in target_sets.iter().enumerate() {
-                for p in 0..4 { if p > 0 && i % 7 != 0 { continue; }   // every case at field level; every 7th also at the other levels
+                let thorough = std::env::var("VERIF_TIER").map_or(false, |t| t == "thorough");
+                for p in 0..4 { if p > 0 && i % 7 != 0 && !thorough { continue; }   // every case at field level; every 7th (thorough: every) also at the other levels
                     tried += 1;
                     if let Some(m) = tos_case(cfgs, ts, p) { report(i, t, p, m); } }
             } }
@@ -457,6 +490,11 @@ fn main() {
         }
         Some("refs-search") | Some("refs-check") => {
             let report = |n: usize, code: u64, w: usize, h: usize, mask: u64, m: String| { println!("WITNESS {{\"input\": {{\"items\": {}, \"edges_code\": {}, \"wrapper\": {}, \"holder\": {}, \"renamed_mask\": {}, \"wrapper_text\": {:?}}}, \"fails\": {:?}}}", n, code, w, h, mask, WRAPPERS[w], m); std::process::exit(1); };
+            if a[1] == "refs-check" && a[2] == "extra" {
+                let r = match a[3].as_str() { "0" => refs_multi_crate(false), "1" => refs_multi_crate(true), _ => refs_serialized_as() };
+                if let Some(m) = r { println!("WITNESS {{\"input\": {{\"extra_program\": {}}}, \"fails\": {:?}}}", a[3], m); std::process::exit(1); }
+                println!("input passes"); std::process::exit(0);
+            }
             if a[1] == "refs-check" {
                 let (n, code, w, h, mask): (usize, u64, usize, usize, u64) = (a[2].parse().unwrap(), a[3].parse().unwrap(), a[4].parse().unwrap(), a[5].parse().unwrap(), a[6].parse().unwrap());
                 let src = order_program_renamed(n, code, w, h, mask);
@@ -464,6 +502,11 @@ fn main() {
                 println!("input passes"); std::process::exit(0);
             }
             let mut tried = 0u64;
+            // fixed extra programs: two crates with an imported renamed type; serialized_as + rename_all
+            for (k, f) in [(0usize, refs_multi_crate(false)), (1, refs_multi_crate(true)), (2, refs_serialized_as())] {
+                tried += 1;
+                if let Some(m) = f { println!("WITNESS {{\"input\": {{\"extra_program\": {}}}, \"fails\": {:?}}}", k, m); std::process::exit(1); }
+            }
             for n in 2..=3usize { for code in 0..(1u64 << (n * n)) {
                 if !dag_acyclic(n, code) || code == 0 { continue; }
                 for w in 0..WRAPPERS.len() { for h in 0..4 { for mask in 1..(1u64 << (n + 1)) {
@@ -500,10 +543,12 @@ fn main() {
                 println!("input passes"); std::process::exit(0);
             }
             let mut tried = 0u64;
-            for n in 2..=4usize { for code in 0..(1u64 << (n * n)) {
+            let thorough = std::env::var("VERIF_TIER").map_or(false, |t| t == "thorough");
+            for n in 2..=(if thorough { 5usize } else { 4usize }) { for code in 0..(1u64 << (n * n)) {
                 if !dag_acyclic(n, code) { continue; }
                 for w in 0..WRAPPERS.len() { for h in 0..4 {
-                    if n == 4 && h != 0 && h != 3 { continue; }
+                    if n == 4 && h != 0 && h != 3 && !thorough { continue; }
+                    if n == 5 && (h != 3 || w % 3 != (code % 3) as usize) { continue; }
                     tried += 1;
                     let src = order_program(n, code, w, h);
                     match panic::catch_unwind(move || order_case(&src)) { Ok(None) => {}, Ok(Some(m)) => report(n, code, w, h, m), Err(_) => report(n, code, w, h, "panicked".into()) }
